@@ -15,31 +15,80 @@ class Version:
         self.defs = {}      # name -> ["rec", [[fname, ty]...], name] | ["enum", base, flags, [[sym,val]...], name]
         self.order = []     # definition order
         self.steps = []     # [name, ty, stream]
+        self.generics = {}  # generic record name -> [type parameter, [[fname, ty]...]]  (ty may hold ["tparam", p])
+        self.instances = {} # name of an instantiated generic record ("G1<int32>", a key of defs) -> (generic name, argument type)
 
     def copy(self):
         return copy.deepcopy(self)
 
 
-def inline(v, t):
+def inline(v, t, params=None):
+    """params: the type parameter names of the open generic definition being inlined (tparam -> position)"""
     k = t[0]
     if k == "prim":
         return t
+    if k == "tparam":
+        return ["tparam", (params or [t[1]]).index(t[1])]
     if k == "ref":
+        if t[1] in v.instances:
+            # a generic record applied to an argument: the open definition plus the arguments (change detection compares both)
+            gname, arg = v.instances[t[1]]
+            p, fields = v.generics[gname]
+            return ["inst", gname, [inline(v, arg, params)], [[n, inline(v, ft, [p])] for n, ft in fields]]
         d = v.defs[t[1]]
         if d[0] == "enum":
             return ["enum", d[1] or "int32", d[2], d[3], d[4]]
         return ["rec", [[n, inline(v, ft)] for n, ft in d[1]], d[2]]
     if k == "opt":
-        return ["opt", inline(v, t[1])]
+        return ["opt", inline(v, t[1], params)]
     if k == "union":
-        return ["union", t[1], [[tag, inline(v, c)] for tag, c in t[2]]]
+        return ["union", t[1], [[tag, inline(v, c, params)] for tag, c in t[2]]]
     if k == "vec":
-        return ["vec", inline(v, t[1]), t[2]]
+        return ["vec", inline(v, t[1], params), t[2]]
     if k == "arr":
-        return ["arr", inline(v, t[1]), t[2]]
+        return ["arr", inline(v, t[1], params), t[2]]
     if k == "map":
-        return ["map", inline(v, t[1]), inline(v, t[2])]
+        return ["map", inline(v, t[1], params), inline(v, t[2], params)]
     raise ValueError(t)
+
+
+def defs_json(v):
+    """the definitions of a version for the model's environment: records, enums and the open generic records"""
+    out = [inline(v, ["ref", nm]) for nm in v.order if nm not in v.instances]
+    for gname in sorted(v.generics):
+        p, fields = v.generics[gname]
+        out.append(["inst", gname, [], [[n, inline(v, ft, [p])] for n, ft in fields]])
+    return out
+
+
+def subst(t, p, arg):
+    k = t[0]
+    if k == "tparam":
+        return copy.deepcopy(arg) if t[1] == p else t
+    if k in ("prim", "ref"):
+        return t
+    if k == "union":
+        return ["union", t[1], [[tag, subst(c, p, arg)] for tag, c in t[2]]]
+    if k == "map":
+        return ["map", subst(t[1], p, arg), subst(t[2], p, arg)]
+    return [k, subst(t[1], p, arg)] + list(t[2:])
+
+
+def instantiate(v, gname, arg):
+    """the record a generic record denotes for one type argument; it is a definition of its own on the wire, named G<arg>"""
+    name = f"{gname}<{ty_yaml(arg)}>"
+    p, fields = v.generics[gname]
+    v.defs[name] = ["rec", [[n, subst(ft, p, arg)] for n, ft in fields], name]
+    v.instances[name] = (gname, arg)
+    if name not in v.order:
+        v.order.append(name)
+    return name
+
+
+def reinstantiate(v):
+    for name, (gname, arg) in v.instances.items():
+        p, fields = v.generics[gname]
+        v.defs[name] = ["rec", [[n, subst(ft, p, arg)] for n, ft in fields], name]
 
 
 def proto_json(v):
@@ -49,8 +98,9 @@ def proto_json(v):
 # ------------------------------------------------------------------------------------- generation
 
 class EvoGen:
-    def __init__(self, rng, cpp_safe=True):
+    def __init__(self, rng, cpp_safe=True, generics=False):
         self.r = rng
+        self.generics = generics
         self.cpp_safe = cpp_safe   # avoid regions where generated C++ does not compile / the shims cannot help (bool sequences, dates)
         self.n = 0
 
@@ -151,6 +201,31 @@ class EvoGen:
             fields = [[f"f{i}", self.gen_type(v, 2)] for i in range(r.choice([1, 2, 3, 4]))]
             v.defs[name] = ["rec", fields, name]
             v.order.append(name)
+        if self.generics and r.random() < 0.7:
+            plain = [n for n in v.order]
+            for _ in range(r.choice([1, 1, 2])):
+                gname = self.fresh("G")
+                body = [[f"f{i}", r.choice([self.prim(), ["tparam", "T"], ["vec", ["tparam", "T"], None], ["opt", ["tparam", "T"]], ["map", ["prim", "string"], ["tparam", "T"]]])]
+                        for i in range(r.choice([1, 2, 3]))]
+                if not any(_uses_tparam(ft) for _, ft in body):
+                    body[r.randrange(len(body))][1] = ["tparam", "T"]
+                v.generics[gname] = ["T", body]
+                cands = [["prim", p] for p in ("int32", "float32", "float64", "string", "uint8", "int64")] + [["ref", n] for n in plain]
+                r.shuffle(cands)
+                insts = [instantiate(v, gname, a) for a in cands[:r.choice([2, 2, 3])]]
+                if r.random() < 0.7:
+                    # several instantiations of one generic reached from one step
+                    shape = r.choice(["union", "holder", "steps"])
+                    if shape == "union":
+                        v.steps.append([self.fresh("m"), ["union", r.random() < 0.3, [[self.fresh("t"), ["ref", n]] for n in insts]], r.random() < 0.5])
+                    elif shape == "holder":
+                        name = self.fresh("R")
+                        v.defs[name] = ["rec", [[f"h{i}", ["ref", n] if r.random() < 0.6 else ["vec", ["ref", n], None]] for i, n in enumerate(insts)], name]
+                        v.order.append(name)
+                        v.steps.append([self.fresh("m"), ["ref", name], r.random() < 0.5])
+                    else:
+                        for n in insts:
+                            v.steps.append([self.fresh("m"), ["ref", n], r.random() < 0.5])
         for i in range(n_steps if n_steps is not None else r.choice([1, 2, 3])):
             stream = r.random() < 0.4
             t = self.gen_type(v, 3)
@@ -185,7 +260,7 @@ class EvoGen:
             walk(s, 1, True, None)
         for name in v.order:
             d = v.defs[name]
-            if d[0] == "rec":
+            if d[0] == "rec" and name not in v.instances:
                 for f in d[1]:
                     walk(f, 1, True, name)
         return out
@@ -394,8 +469,44 @@ class EvoGen:
                 self.last = {"plain": plain, "old": old_t, "new": x[1], "in_record": owner}
                 return "type:" + x[0], nv
             if c < (0.9 if getattr(self, "accepted_bias", False) else 0.8):
-                recs = [n for n in nv.order if nv.defs[n][0] == "rec"]
+                recs = [n for n in nv.order if nv.defs[n][0] == "rec" and n not in nv.instances]
                 enums = [n for n in nv.order if nv.defs[n][0] == "enum"]
+                if nv.generics and r.random() < 0.3:
+                    gname = r.choice(sorted(nv.generics))
+                    param, body = nv.generics[gname]
+                    e = r.choice(["field-add-nullable", "field-add-required", "field-remove", "field-swap", "field-rename", "param-field-to-optional", "param-field-to-vector", "field-prim-change"])
+                    if e == "field-add-nullable":
+                        body.insert(r.randrange(len(body) + 1), [self.fresh("g"), ["opt", self.prim() if r.random() < 0.5 else ["tparam", param]]])
+                    elif e == "field-add-required":
+                        body.insert(r.randrange(len(body) + 1), [self.fresh("g"), self.prim() if r.random() < 0.6 else ["tparam", param]])
+                    elif e == "field-remove":
+                        keep = [f for f in body]
+                        del keep[r.randrange(len(keep))]
+                        if not keep or not any(_uses_tparam(ft) for _, ft in keep):
+                            continue
+                        body[:] = keep
+                    elif e == "field-swap":
+                        if len(body) < 2:
+                            continue
+                        i, j = r.sample(range(len(body)), 2)
+                        body[i], body[j] = body[j], body[i]
+                    elif e == "field-rename":
+                        body[r.randrange(len(body))][0] = self.fresh("h")
+                    elif e in ("param-field-to-optional", "param-field-to-vector"):
+                        fs = [f for f in body if f[1] == ["tparam", param]]
+                        if not fs:
+                            continue
+                        f = r.choice(fs)
+                        f[1] = ["opt", f[1]] if e.endswith("optional") else ["vec", f[1], None]
+                    else:
+                        fs = [f for f in body if f[1][0] == "prim"]
+                        if not fs:
+                            continue
+                        f = r.choice(fs)
+                        f[1] = ["prim", r.choice([x for x in NUMERIC + ["string"] if x != f[1][1]])]
+                    reinstantiate(nv)
+                    self.last = {"generic": gname}
+                    return "generic:" + e, nv
                 if recs and (not enums or r.random() < 0.7):
                     d = nv.defs[r.choice(recs)]
                     e = r.choice(["field-add-nullable", "field-add-required", "field-remove", "field-swap", "field-rename"])
@@ -475,9 +586,24 @@ class EvoGen:
 
 # --------------------------------------------------------------------------------------- YAML
 
+def _uses_tparam(t):
+    k = t[0]
+    if k == "tparam":
+        return True
+    if k in ("prim", "ref"):
+        return False
+    if k == "union":
+        return any(_uses_tparam(c) for _, c in t[2])
+    if k == "map":
+        return _uses_tparam(t[1]) or _uses_tparam(t[2])
+    return _uses_tparam(t[1])
+
+
 def ty_yaml(t):
     k = t[0]
     if k == "prim":
+        return t[1]
+    if k == "tparam":
         return t[1]
     if k == "ref":
         return t[1]
@@ -503,7 +629,16 @@ def ty_yaml(t):
 
 def model_yaml(v, proto_name="P"):
     out = []
+    for gname in sorted(v.generics):
+        param, fields = v.generics[gname]
+        out.append(f"{gname}<{param}>: !record")
+        out.append("  fields:")
+        for n, t in fields:
+            out.append(f"    {n}: {ty_yaml(t)}")
+        out.append("")
     for name in v.order:
+        if name in v.instances:
+            continue
         d = v.defs[name]
         if d[0] == "enum":
             out.append(f"{name}: " + ("!flags" if d[2] else "!enum"))
